@@ -12,6 +12,7 @@ from unittest import mock
 
 from . import coqlit as L
 from .core import Prop, rp_import
+from .sides import Sides, Spec
 
 TSTATES = ['NEW', 'TMGR_SCHEDULING_PENDING', 'TMGR_SCHEDULING', 'TMGR_STAGING_INPUT_PENDING',
            'TMGR_STAGING_INPUT', 'AGENT_STAGING_INPUT_PENDING', 'AGENT_STAGING_INPUT',
@@ -32,7 +33,7 @@ def puid(p):
     return None if p is None else 'pilot.%04d' % p
 
 
-class C13(Prop):
+class C13Death(Prop):
     id = 'C13'
     module = 'c13'
     title = 'A dying pilot fails its own tasks and only those'
@@ -290,6 +291,16 @@ class C13(Prop):
                     if any(st in FINAL for _, st in o[1]):
                         d['callbacks_with_final_pilot'] += 1
         return d
+
+
+class C13(Sides, C13Death):
+    # the callback of the task manager only runs when the pilot OBJECT becomes final: notification ->
+    # PilotManager._update_pilot -> Pilot._update -> pilot callbacks (the C14 check: sequences of notifications
+    # and two notifications handled by two threads at once)
+    side_specs = [Spec('pilot', 'c14', ['progression', 'final_state_consistent', 'no_unexpected_exception'])]
+    clauses = C13Death.clauses + side_specs[0].clause_names()
+    extra_targets = C13Death.extra_targets + ['States/Oracle.vo', 'AgentCause/Model.vo']
+    model_targets = C13Death.model_targets + ['States/Oracle.vo', 'AgentCause/Model.vo']
 
 
 PROP = C13()
